@@ -21,6 +21,8 @@ REPLAYS = os.path.join(VERIF, "replays")
 KNOWN = os.path.join(VERIF, "known_findings.jsonl")
 REPO = os.environ.get("VERIF_REPO", "/repo")
 NCPU = os.cpu_count() or 4
+# default TLC worker count: several checks/TLC runs are usually in flight at once
+AUTO_WORKERS = int(os.environ.get("VERIF_TLC_WORKERS", "0")) or max(2, min(8, NCPU // 2))
 
 
 class Machinery(Exception):
@@ -69,7 +71,7 @@ def tlc(
     """Run TLC on spec/<module>.tla with spec/<cfg>. PrintT(ToJson(x)) lines are decoded."""
     cfg = cfg or module + ".cfg"
     meta = tempfile.mkdtemp(prefix="tlcmeta_", dir=workdir)
-    jopts = f"-Xmx{heap} -XX:+UseParallelGC"
+    jopts = f"-Xmx{heap} -XX:+UseParallelGC -XX:ParallelGCThreads=4"
     if dfs:
         jopts += " -Dtlc2.tool.queue.IStateQueue=StateDeque"
     cmd = [
@@ -81,7 +83,7 @@ def tlc(
     wrapper = shutil.which("tlc")
     if wrapper:
         cmd = [wrapper]
-    cmd += ["-workers", str(NCPU if workers == "auto" else workers), "-metadir", meta,
+    cmd += ["-workers", str(AUTO_WORKERS if workers == "auto" else workers), "-metadir", meta,
             "-noGenerateSpecTE", "-config", os.path.join(spec_dir, cfg)]
     if simulate is not None:
         cmd += ["-simulate", simulate]
